@@ -116,6 +116,24 @@ def all_as_nonnull(chk, prog, files):
                     chk.finding("ALL-AS-NONNULL", f.module.rel, f.qname, "%s used as a truth value" % ast.unparse(leaf)[:60],
                                 "`%s` is true only when EVERY component of `%s` is non-zero: a valid sample with one exactly-zero component (a level device, a rate about one axis) "
                                 "is treated as null -- the null test is `np.any(...)` / a norm" % (ast.unparse(leaf)[:40], ast.unparse(arg)[:30]), line=leaf.lineno)
+        # row-wise form, wherever it is used:  np.all(acc, axis=1)  on a data array is "every component of the row is non-zero"
+        params = set(_params(f))
+        for c in _own_nodes(f.node):
+            if isinstance(c, ast.Call) and ast.unparse(c.func) in ("np.all", "numpy.all") and len(c.args) >= 1 and any(k.arg == "axis" for k in c.keywords):
+                a0 = c.args[0]
+                n += 1
+                base_ = a0
+                while isinstance(base_, ast.Subscript):
+                    base_ = base_.value
+                is_data = (isinstance(base_, ast.Name) and base_.id in params) or (isinstance(base_, ast.Attribute) and isinstance(base_.value, ast.Name) and base_.value.id == "self")
+                if isinstance(base_, ast.Name) and base_.id not in params:
+                    defs_ = [x.value for x in _own_nodes(f.node) if isinstance(x, ast.Assign) and any(isinstance(t_, ast.Name) and t_.id == base_.id for t_ in x.targets)]
+                    if defs_ and all(isinstance(d_, ast.Attribute) and isinstance(d_.value, ast.Name) and d_.value.id == "self" for d_ in defs_):
+                        is_data = True       # a local alias of a stored sample array:  acc = self.acc
+                if is_data and not _flag_valued(a0):
+                    chk.finding("ALL-AS-NONNULL", f.module.rel, f.qname, "%s as a per-row validity flag" % ast.unparse(c)[:60],
+                                "`%s` is true for a row only when EVERY component of it is non-zero: a valid sample with one exactly-zero component (a level device, an "
+                                "axis-aligned field) is flagged as missing -- the per-row null test is a norm or `np.any(..., axis=1)`" % ast.unparse(c)[:50], line=c.lineno)
     chk.counts["ALL-AS-NONNULL.tests"] = chk.counts.get("ALL-AS-NONNULL.tests", 0) + n
     return n
 
